@@ -47,7 +47,7 @@ class MRun:
         k['scenarios'] += 1
         self.paths += len(outs)
         for o in outs:
-            if o.kind in ('limit',):
+            if o.kind in ('limit',) and not getattr(self, 'limit_is_finding', False):
                 self.inconclusive.append(f'{kernel}: {o.msg}')
             if o.kind == 'panic':
                 self.panics += 1
